@@ -178,3 +178,18 @@ def semantic(rep):
     m = tensor.Box('m', tensor.Dim(2), tensor.Dim(2), [0, 1, 1, 0])
     Tn = [tensor.Id(tensor.Dim(2)) >> m, tensor.Id(tensor.Dim(1)) >> v, v >> m, v @ v, m @ m]
     laws(rep, Tn, tensor.Id, tensor.Dim, (0, 1), 'tensor')
+    # sums in the semantic classes: the laws hold and the result stays a sum of that class (it can still be evaluated)
+    w = tensor.Box('w', tensor.Dim(1), tensor.Dim(2), [2, 3])
+    for tag, f, g, h, k in (('tensor', v, w, m, v), ('circuit', circuit.Id(1) >> H, circuit.Id(1) >> X, circuit.Id(1) >> Rz, H),
+                            ('zx', zx.Id(1) >> zx.Z(1, 1, 0.25), zx.Id(1) >> zx.H, zx.Id(1) >> zx.X(1, 1, 0.5), zx.H)):
+        inp = '%s: %r + %r, %r, %r' % (tag, f, g, h, k)
+        rep.case((tag, 'sum', inp))
+        kind = type(f + g)
+        eq(rep, 'sum.dagger', lambda: (f + g)[::-1], lambda: f[::-1] + g[::-1], inp)
+        eq(rep, 'sum.then.left_operand', lambda: (f + g) >> h, lambda: (f >> h) + (g >> h), inp)
+        eq(rep, 'sum.tensor.left_operand', lambda: (f + g) @ k, lambda: (f @ k) + (g @ k), inp)
+        eq(rep, 'sum.tensor.right_operand', lambda: k @ (f + g), lambda: (k @ f) + (k @ g), inp)
+        for nm, th in (('dagger', lambda: (f + g)[::-1]), ('then', lambda: (f + g) >> h), ('tensor', lambda: (f + g) @ k),
+                       ('tensor.right', lambda: k @ (f + g)), ('zero.then', lambda: kind([], f.dom, f.cod) >> h)):
+            eq(rep, 'sum.closed.' + nm, lambda: type(th()).__module__ + '.' + type(th()).__name__,
+               lambda: kind.__module__ + '.' + kind.__name__, inp)
